@@ -60,6 +60,7 @@ CONSTANTS
     Backends,       \* subset of {"file", "es", "comp"}
     Faults,         \* subset of {"none", "es"}: "es" = the metrics cluster rejects the document (not retryable)
     Mismatch,       \* store_race may be called under a configuration whose race id differs from race.race_id
+    StoreOnce,      \* store_race only into the empty store (record round trip configurations)
     Ops,            \* the calls that occur (subset of {"Store", "Find", "List", "Delete", "Restore", "Abort", "Plant", "PlantEs"})
     NameFilterSound, FileChallengeFilter, StoreByRaceId, EsOneDocPerRace
 
@@ -194,18 +195,24 @@ ListRet(cands, lim) ==
        ELSE [err |-> "none", races |-> [i \in 1..n |-> View(sq[i].d)]]
 
 (* the clauses that make a sequence of races a correct answer for a set of candidates and a limit; the order among equal
-   timestamps (and which of them fall under the limit) is left open, as it is by glob and by Elasticsearch *)
+   timestamps (and which of them fall under the limit) is left open, as it is by glob and by Elasticsearch.
+   strict = FALSE compares the content of the races only, not the Python types of track / challenge / results *)
+Strip(v) == [v EXCEPT !.tT = "", !.cT = "", !.rT = ""]
+VOf(d, strict) == IF strict THEN View(d) ELSE Strip(View(d))
+RS(rs, strict) == IF strict THEN rs ELSE [i \in 1..Len(rs) |-> Strip(rs[i])]
 CountR(rs, v) == Cardinality({i \in 1..Len(rs) : rs[i] = v})
-CountC(cands, v) == Cardinality({c \in cands : c.k = "ok" /\ View(c.d) = v})
-ViewsOf(rs, cands) == {rs[i] : i \in 1..Len(rs)} \cup {View(c.d) : c \in cands}
+CountC(cands, v, strict) == Cardinality({c \in cands : c.k = "ok" /\ VOf(c.d, strict) = v})
+ViewsOf(rs, cands, strict) == {rs[i] : i \in 1..Len(rs)} \cup {VOf(c.d, strict) : c \in cands}
 
 ListSorted(rs) == \A i \in 1..(Len(rs) - 1) : rs[i].ts >= rs[i + 1].ts
 ListLimit(rs, lim) == Len(rs) <= lim
-ListSound(rs, cands) == \A v \in ViewsOf(rs, cands) : CountR(rs, v) <= CountC(cands, v)
-ListComplete(rs, cands, lim) ==
-    /\ Len(rs) >= Min2(lim, Cardinality(cands))
-    /\ Len(rs) > 0 => \A v \in ViewsOf(rs, cands) : v.ts > rs[Len(rs)].ts => CountR(rs, v) >= CountC(cands, v)
-ListOK(rs, cands, lim) == ListSorted(rs) /\ ListLimit(rs, lim) /\ ListSound(rs, cands) /\ ListComplete(rs, cands, lim)
+ListSound(rs0, cands, strict) ==
+    LET rs == RS(rs0, strict) IN \A v \in ViewsOf(rs, cands, strict) : CountR(rs, v) <= CountC(cands, v, strict)
+ListComplete(rs0, cands, lim, strict) ==
+    LET rs == RS(rs0, strict)
+    IN /\ Len(rs) >= Min2(lim, Cardinality(cands))
+       /\ Len(rs) > 0 => \A v \in ViewsOf(rs, cands, strict) : v.ts > rs[Len(rs)].ts => CountR(rs, v) >= CountC(cands, v, strict)
+ListOK(rs, cands, lim) == ListSorted(rs) /\ ListLimit(rs, lim) /\ ListSound(rs, cands, TRUE) /\ ListComplete(rs, cands, lim, TRUE)
 
 (* is r an answer the code may give (L2)?  A malformed hit makes EsRaceStore.list raise KeyError *)
 ListAccept(r, cands, lim) ==
@@ -270,9 +277,9 @@ Restore(be, id) ==
     /\ act' = [op |-> "Restore", be |-> be, id |-> id]
     /\ UNCHANGED view
 
-Abort(be, r) ==          \* on_benchmark_complete of a cancelled / failed benchmark: nothing is stored
+Abort(be, id) ==         \* on_benchmark_complete of a cancelled / failed benchmark: nothing is stored
     /\ ret' = NoRet
-    /\ act' = [op |-> "Abort", be |-> be, r |-> r]
+    /\ act' = [op |-> "Abort", be |-> be, id |-> id]
     /\ UNCHANGED view
 
 Plant(x, c) ==           \* somebody else writes races/<x>/race.json
@@ -296,18 +303,27 @@ PlantEs(d) ==            \* somebody else indexes a document that lacks a mandat
     /\ act' = [op |-> "PlantEs", d |-> d]
     /\ UNCHANGED <<files, dirs, tmpl>>
 
+(* the rarer calls and the interventions are grouped so that TLC's simulator (which first picks an action) does not favour them *)
+Rare ==
+    /\ TRUE
+    /\ \/ "Delete" \in Ops /\ \E be \in Backends, ids \in DeleteSets, env \in Envs, dry \in BOOLEAN : Delete(be, ids, env, dry)
+       \/ "Restore" \in Ops /\ \E be \in Backends, id \in Dirs : Restore(be, id)
+       \/ "Abort" \in Ops /\ \E be \in Backends, id \in Dirs : Abort(be, id)
+Intervene ==
+    /\ TRUE
+    /\ \/ "Plant" \in Ops /\ \E x \in Dirs : Plant(x, BadFile) \/ Unlink(x) \/ \E d \in Foreign : d.id = x /\ Plant(x, [k |-> "ok", d |-> d])
+       \/ "PlantEs" \in Ops /\ \E d \in ForeignEs : PlantEs(d)
+
 Next ==
     \/ /\ "Store" \in Ops
-       /\ \E be \in Backends, r \in Races, fault \in Faults :
-            /\ (be = "file" => fault = "none")
-            /\ \E cid \in (IF Mismatch THEN Dirs ELSE {r.id}) : Store(be, cid, r, fault)
+       /\ StoreOnce => (dirs = {} /\ es = {})
+       /\ \E be \in Backends, r \in Races :
+            \E fault \in (IF be = "file" THEN {"none"} ELSE Faults), cid \in (IF Mismatch /\ be # "es" THEN Dirs ELSE {r.id}) :
+                Store(be, cid, r, fault)
     \/ "Find" \in Ops /\ \E be \in Backends, id \in Dirs : Find(be, id)
     \/ "List" \in Ops /\ \E be \in Backends, env \in Envs, p \in FilterSet, lim \in Limits : List(be, env, p, lim)
-    \/ "Delete" \in Ops /\ \E be \in Backends, ids \in DeleteSets, env \in Envs, dry \in BOOLEAN : Delete(be, ids, env, dry)
-    \/ "Restore" \in Ops /\ \E be \in Backends, id \in Dirs : Restore(be, id)
-    \/ "Abort" \in Ops /\ \E be \in Backends, r \in Races : Abort(be, r)
-    \/ "Plant" \in Ops /\ \E x \in Dirs : Plant(x, BadFile) \/ Unlink(x) \/ \E d \in Foreign : d.id = x /\ Plant(x, [k |-> "ok", d |-> d])
-    \/ "PlantEs" \in Ops /\ \E d \in ForeignEs : PlantEs(d)
+    \/ Rare
+    \/ Intervene
 
 Spec == Init /\ [][Next]_vars
 
@@ -361,7 +377,7 @@ FindExact(S, a, rt) ==
             unclear == n > 1 \/ (a.be # "file" /\ \E y \in EsHolders(S, a.id) : y.k = "bad")
         IN \/ unclear
            \/ n = 0 /\ rt.err = "NotFound" /\ rt.races = <<>>
-           \/ n = 1 /\ rt.err = "none" /\ Len(rt.races) = 1 /\ \E d \in H : rt.races[1] = View(d)
+           \/ n = 1 /\ rt.err = "none" /\ Len(rt.races) = 1 /\ \E d \in H : Strip(rt.races[1]) = Strip(View(d))
 
 (* list returns exactly the stored races matching the filters, newest first, at most limit; unreadable files are skipped *)
 ListIntended(S, a) == WantCands(S, a.be, a.env, a.p)
@@ -369,8 +385,8 @@ ListClear(S, a) == a.op = "List" /\ \A c \in ListIntended(S, a) : c.k = "ok"
 ListTotal(S, a, rt) == (a.op = "List" /\ ListClear(S, a)) => rt.err = "none"
 PListSorted(S, a, rt) == (ListClear(S, a) /\ rt.err = "none") => ListSorted(rt.races)
 PListLimit(S, a, rt) == (ListClear(S, a) /\ rt.err = "none") => ListLimit(rt.races, a.lim)
-PListSound(S, a, rt) == (ListClear(S, a) /\ rt.err = "none") => ListSound(rt.races, ListIntended(S, a))
-PListComplete(S, a, rt) == (ListClear(S, a) /\ rt.err = "none") => ListComplete(rt.races, ListIntended(S, a), a.lim)
+PListSound(S, a, rt) == (ListClear(S, a) /\ rt.err = "none") => ListSound(rt.races, ListIntended(S, a), FALSE)
+PListComplete(S, a, rt) == (ListClear(S, a) /\ rt.err = "none") => ListComplete(rt.races, ListIntended(S, a), a.lim, FALSE)
 
 (* delete removes exactly the races of the given ids in the environment of the configuration (race.json files stay) *)
 DeleteExact(S, T, a, rt) ==
